@@ -222,6 +222,10 @@ type vfScenario struct {
 	// refuse a finished upload (internal error 500, documented behaviour)
 	commitRefusal bool
 	atomics  bool
+	// prelife: an earlier life of the directory under another storage mode
+	// (runs on its own cache instance, which is shut down before the one under test starts)
+	prelifeMode string
+	prelife     func(cc Cache)
 	// setup runs free-running before the scheduler takes over.
 	setup func(e *vfEnv)
 	// threads are the concurrent requests.
@@ -292,6 +296,16 @@ func vfRunOne(t *testing.T, sc *vfScenario, dir string, prefix []int) *vsched.Ex
 	if sc.useProxy {
 		e.proxy = vlib.NewFakeProxy()
 		opts = append(opts, WithProxyBackend(e.proxy))
+	}
+	if sc.prelifeMode != "" {
+		pc, err := New(dir, sc.maxSize, WithStorageMode(sc.prelifeMode), WithAccessLogger(vlib.SilentLogger()))
+		if err != nil {
+			t.Fatalf("disk.New (earlier life): %v", err)
+		}
+		VfSeedTempfiles(4711)
+		sc.prelife(pc)
+		VfDrain(pc)
+		VfShutdown(pc)
 	}
 	cc, err := New(dir, sc.maxSize, opts...)
 	if err != nil {
@@ -694,6 +708,25 @@ func vfScenarios() []*vfScenario {
 					func(e *vfEnv, th string) { e.put(th, cache.AC, ack, v3) },
 				},
 				finals: []vfFinal{{cache.AC, ack}}})
+		}
+
+		// a blob written under the OTHER storage mode in an earlier life of the directory is
+		// read while it is uploaded again (the entry changes format under the reader)
+		{
+			other := map[string]string{"zstd": "uncompressed", "uncompressed": "zstd"}[mode]
+			X := vfMkBlob("X-other-format", 5000, true)
+			out = append(out, &vfScenario{name: "S13-get-vs-reupload-other-format/" + mode, mode: mode, maxSize: 1 << 20,
+				prelifeMode: other,
+				prelife: func(pc Cache) {
+					_ = pc.Put(context.Background(), cache.CAS, X.hash, int64(len(X.data)), bytes.NewReader(X.data))
+				},
+				setup: func(e *vfEnv) { e.legal("cas/"+X.hash, X.data) },
+				threads: []func(*vfEnv, string){
+					func(e *vfEnv, th string) { e.get(th, cache.CAS, X.hash, int64(len(X.data)), 0, false) },
+					putCAS(X),
+					func(e *vfEnv, th string) { e.get(th, cache.CAS, X.hash, -1, 1, true) },
+				},
+				finals: []vfFinal{{cache.CAS, X.hash}}})
 		}
 
 		// C10: FindMissing over 25 digests (two internal batches) while two of
